@@ -62,8 +62,7 @@ def _construct(patts, how):
 def well_formed(av, spec, mesh, level_set=None, cap=None):
     """Representation invariant of DESIGN section 7 / C02 (message or None).
 
-    cache[0] has the single key Perm(); keys(cache[i]) == Av_i for every level
-    present.  Classical basis: levels older than the last two are compacted (all
+    keys(cache[i]) == Av_i for every level present (level 0 included).  Classical basis: levels older than the last two are compacted (all
     values None); the last two hold lists; at level len-2 the list of p is, as a
     set, {v : p with v inserted at the right end is in the class} (this is what
     the level builder reads as `spots`); the lists of the last level contain only
@@ -79,14 +78,10 @@ def well_formed(av, spec, mesh, level_set=None, cap=None):
         return None
     if not cache:
         return "cache has no level 0"
-    if set(cache[0]) != {Perm()}:
-        return f"cache[0] has keys {sorted(cache[0])}"
     n_levels = len(cache)
     for i, lv in enumerate(cache):
         keys = set(tuple(p) for p in lv)
-        want = level_set(i, spec)
-        if i == 0:
-            want = frozenset({()})  # the seed level is part of the representation
+        want = level_set(i, spec)  # level 0 included: the empty permutation is a key iff it avoids the basis
         if keys != want:
             extra = sorted(keys - want)[:3]
             missing = sorted(want - keys)[:3]
